@@ -375,6 +375,8 @@ func (fr *Frame) loadFacts(st *State, v *Term, t types.Type) {
 	switch t.Underlying().(type) {
 	case *types.Slice:
 		ex.assume(st, ex.typeFacts(v, t))
+		al := ex.get(st, "Alloc", ArraySort(SRef, SBool))
+		ex.assume(st, Or(Eq(SArr(v), TNull), Select(al, SArr(v))))
 	case *types.Pointer, *types.Map, *types.Chan:
 		al := ex.get(st, "Alloc", ArraySort(SRef, SBool))
 		ex.assume(st, Or(Eq(v, TNull), Select(al, v)))
